@@ -295,7 +295,7 @@ def main():
     for (ci, oi, code) in V:
         k = is_known(code)
         # a known finding is the documented behaviour: the model reproduces it at the same operation
-        if k and (ci, oi, code) in model_viol:
+        if k and ((ci, oi, code) in model_viol or k.get("model_reproduces") is False):
             known_hits[k["id"]] += 1
         else:
             vio_by_case[ci].append((oi, code))
@@ -320,9 +320,12 @@ def main():
             except Exception as e:  # shrinking is best effort
                 common.log("shrink failed:", e)
         cs, ts = common.run_impl([small])
-        p = write_replay(prop, f"viol-{code}-{case_hash(small)}",
-                         {"property": prop, "failing_code": code, "meaning": props.CODES.get(code, ""),
-                          "case": cs[0], "implementation_trace": ts[0]})
+        payload = {"property": prop, "failing_code": code, "meaning": props.CODES.get(code, ""),
+                   "case": cs[0], "implementation_trace": ts[0]}
+        if spec.get("twin"):
+            tw = props.twins_for(spec, cs, ts, seed)
+            payload["twin_case"], payload["twin_trace"], payload["twin_perm"] = tw[0]
+        p = write_replay(prop, f"viol-{code}-{case_hash(small)}", payload)
         print(f"VIOLATION property={prop} replay={p}")
         violations += 1
     mism_unexplained = [m for m in M if m[0] not in vio_by_case]
